@@ -248,6 +248,14 @@ for cc in json.loads(sys.argv[1]):
             if not first.startswith("raise "):
                 y = IBAN(first, allow_invalid=True)
                 _ = (y.bank_code, y.branch_code, y.account_code, y.national_checksum_digits, y.bic, y.bank, y.is_valid)
+                # ... and after the same seeded call with a pinned component (pins must not outlive their call)
+                for pin in ("account_code", "bank_code"):
+                    v = getattr(y, pin)
+                    if v:
+                        try:
+                            IBAN.random(cc, random=random.Random(1), use_registry=reg, **{pin: "0" * len(v)})
+                        except Exception:
+                            pass
             out[f"{cc}/1/{reg}/again"] = str(IBAN.random(cc, random=random.Random(1), use_registry=reg))
         except Exception as ex:
             out[f"{cc}/1/{reg}/again"] = "raise " + type(ex).__name__
@@ -296,6 +304,10 @@ def variants(cc, entry):
         out += [(cc, 1, "branch_code"), (cc, 0, "branch_code")]
     if "bank_code" in have:
         out.append((cc, 0, "bank_code" + (",account_code" if "account_code" in have else "")))
+    # the rarer component kinds (account type, currency code, holder id, account id): each pinned on its own
+    for k, v in pos.items():
+        if k not in ("bank_code", "branch_code", "account_code", "national_checksum_digits") and tuple(v) != (0, 0):
+            out.append((cc, 1, k))
     return out
 
 
